@@ -160,3 +160,124 @@ impl MissingFieldLocationGuard {
     #[verifier::external_body]
     fn new(location: Location) -> MissingFieldLocationGuard { unimplemented!() }
 }
+
+// ---- untyped inference (deserialize_any) and bool/string entry points: more of the opaque visitor ----
+uninterp spec fn vis_bool(v: Vis, b: bool) -> Result<VisVal, Error>;
+uninterp spec fn vis_str(v: Vis, s: Seq<char>) -> Result<VisVal, Error>;
+uninterp spec fn vis_f64(v: Vis, x: f64) -> Result<VisVal, Error>;
+impl Vis {
+    #[verifier::external_body] fn visit_bool(self, b: bool) -> (r: Result<VisVal, Error>) ensures r == vis_bool(self, b) { unimplemented!() }
+    #[verifier::external_body] fn visit_string(self, s: String) -> (r: Result<VisVal, Error>) ensures r == vis_str(self, s@) { unimplemented!() }
+    #[verifier::external_body] fn visit_borrowed_str(self, s: &str) -> (r: Result<VisVal, Error>) ensures r == vis_str(self, s@) { unimplemented!() }
+    #[verifier::external_body] fn visit_str(self, s: &str) -> (r: Result<VisVal, Error>) ensures r == vis_str(self, s@) { unimplemented!() }
+    #[verifier::external_body] fn visit_f64(self, x: f64) -> (r: Result<VisVal, Error>) ensures r == vis_f64(self, x) { unimplemented!() }
+}
+/// YAML 1.1 booleans: true/yes/y/on and false/no/n/off in any letter case
+spec fn sp_yaml11(b: Seq<u8>) -> Option<bool> {
+    if pl_eq_ci(b, seq![0x74u8, 0x72, 0x75, 0x65]) || pl_eq_ci(b, seq![0x79u8, 0x65, 0x73]) || pl_eq_ci(b, seq![0x79u8]) || pl_eq_ci(b, seq![0x6fu8, 0x6e]) { Some(true) }
+    else if pl_eq_ci(b, seq![0x66u8, 0x61, 0x6c, 0x73, 0x65]) || pl_eq_ci(b, seq![0x6eu8, 0x6f]) || pl_eq_ci(b, seq![0x6eu8]) || pl_eq_ci(b, seq![0x6fu8, 0x66, 0x66]) { Some(false) }
+    else { None }
+}
+/// strict booleans: only true / false in any letter case
+spec fn sp_strict_bool(b: Seq<u8>) -> Option<bool> {
+    if pl_eq_ci(b, seq![0x74u8, 0x72, 0x75, 0x65]) { Some(true) } else if pl_eq_ci(b, seq![0x66u8, 0x61, 0x6c, 0x73, 0x65]) { Some(false) } else { None }
+}
+proof fn lemma_bool_literals()
+    ensures "true".spec_bytes() =~= seq![0x74u8, 0x72, 0x75, 0x65], "yes".spec_bytes() =~= seq![0x79u8, 0x65, 0x73], "y".spec_bytes() =~= seq![0x79u8],
+        "on".spec_bytes() =~= seq![0x6fu8, 0x6e], "false".spec_bytes() =~= seq![0x66u8, 0x61, 0x6c, 0x73, 0x65], "no".spec_bytes() =~= seq![0x6eu8, 0x6f],
+        "n".spec_bytes() =~= seq![0x6eu8], "off".spec_bytes() =~= seq![0x6fu8, 0x66, 0x66],
+{
+    reveal_strlit("true"); reveal_strlit("yes"); reveal_strlit("y"); reveal_strlit("on"); reveal_strlit("false"); reveal_strlit("no"); reveal_strlit("n"); reveal_strlit("off");
+    is_ascii_chars_encode_utf8("true"@); is_ascii_chars_encode_utf8("yes"@); is_ascii_chars_encode_utf8("y"@); is_ascii_chars_encode_utf8("on"@);
+    is_ascii_chars_encode_utf8("false"@); is_ascii_chars_encode_utf8("no"@); is_ascii_chars_encode_utf8("n"@); is_ascii_chars_encode_utf8("off"@);
+}
+/// `format!("invalid YAML 1.1 bool: `{}`", s)`
+#[verifier::external_body] fn fmt_invalid_bool(s: &str) -> String { unimplemented!() }
+
+// ---- string side ----
+#[verifier::external_body] fn ty_cowstr_into_owned(v: CowStr<'_>) -> (r: String) ensures r@ == v@ { unimplemented!() }
+/// `String::from_utf8(data)`
+#[verifier::external_body]
+fn ty_string_from_utf8(data: Vec<u8>) -> (r: Result<String, ()>)
+    ensures match r { Ok(t) => valid_utf8(data@) && encode_utf8(t@) == data@, Err(_) => !valid_utf8(data@) },
+{ unimplemented!() }
+/// `s.strip_prefix(['+', '-'])`
+#[verifier::external_body]
+fn ty_str_strip_sign<'a>(s: &'a str) -> (r: Option<&'a str>)
+    ensures match r {
+        Some(rest) => s.spec_bytes().len() > 0 && (s.spec_bytes()[0] == 0x2b || s.spec_bytes()[0] == 0x2d) && rest.spec_bytes() == s.spec_bytes().skip(1),
+        None => s.spec_bytes().len() == 0 || !(s.spec_bytes()[0] == 0x2b || s.spec_bytes()[0] == 0x2d) },
+{ s.strip_prefix(['+', '-']) }
+/// `s.chars().next()`: None iff empty; an ASCII first character is the first byte
+#[verifier::external_body]
+fn ty_str_first_char(s: &str) -> (r: Option<char>)
+    ensures match r {
+        None => s.spec_bytes().len() == 0,
+        Some(c) => s.spec_bytes().len() > 0 && (((c as u32) < 0x80) == (s.spec_bytes()[0] < 0x80)) && ((c as u32) < 0x80 ==> c as u32 == s.spec_bytes()[0] as u32) },
+{ s.chars().next() }
+spec fn sp_leading_zero_decimal(tb: Seq<u8>) -> bool {
+    let d = if tb.len() > 0 && (tb[0] == 0x2b || tb[0] == 0x2d) { tb.skip(1) } else { tb };
+    d.len() >= 2 && d[0] == 0x30 && !(d[1] == 0x78 || d[1] == 0x58 || d[1] == 0x6f || d[1] == 0x4f || d[1] == 0x62 || d[1] == 0x42)
+}
+/// may this tag be read as a string?  (can_parse_into_string, the non-specific `!`, or !!binary when the option says so)
+spec fn sp_string_tag_ok(tag: SfTag, ignore_binary: bool) -> bool {
+    tag is None || tag is String || tag is Other || tag is NonSpecific || (ignore_binary && tag is Binary)
+}
+
+// ---- deserialize_any ----
+uninterp spec fn sp_float(b: Seq<u8>, tag: SfTag, angle: bool) -> Option<f64>;
+uninterp spec fn sp_is_finite(x: f64) -> bool;
+uninterp spec fn sp_is_nan(x: f64) -> bool;
+uninterp spec fn sp_is_neg(x: f64) -> bool;
+/// `parse_yaml12_float::<f64>(s, location, tag, angle_conversions)`: float parsing is std (and, with the robotics
+/// feature, the evaluator of unit `robotics`); an uninterpreted function of text, tag and option here
+#[verifier::external_body]
+fn ty_parse_float_f64(s: &str, location: Location, tag: SfTag, angle: bool) -> (r: Result<f64, Error>)
+    ensures match r { Ok(v) => sp_float(s.spec_bytes(), tag, angle) == Some(v), Err(_) => sp_float(s.spec_bytes(), tag, angle) is None },
+{ unimplemented!() }
+#[verifier::external_body] fn ty_f64_is_finite(x: f64) -> (r: bool) ensures r == sp_is_finite(x) { x.is_finite() }
+#[verifier::external_body] fn ty_f64_is_nan(x: f64) -> (r: bool) ensures r == sp_is_nan(x) { x.is_nan() }
+#[verifier::external_body] fn ty_f64_is_sign_negative(x: f64) -> (r: bool) ensures r == sp_is_neg(x) { x.is_sign_negative() }
+/// `match cow { Cow::Borrowed(b) => visitor.visit_borrowed_str(b), Cow::Owned(s) => visitor.visit_string(s) }`
+#[verifier::external_body]
+fn ty_visit_cowstr(visitor: Vis, cow: CowStr<'_>) -> (r: Result<VisVal, Error>) ensures r == vis_str(visitor, cow@) { unimplemented!() }
+uninterp spec fn vis_seq<'de>(v: Vis, rest: Seq<Ev<'de>>, cfg: Cfg) -> Result<VisVal, Error>;
+uninterp spec fn vis_map<'de>(v: Vis, rest: Seq<Ev<'de>>, cfg: Cfg) -> Result<VisVal, Error>;
+impl<'de, 'e> YamlDeserializer<'de, 'e> {
+    /// delegation targets of deserialize_any (generic over the visitor; opaque here)
+    #[verifier::external_body]
+    fn deserialize_seq(self, visitor: Vis) -> (r: Result<VisVal, Error>) ensures r == vis_seq(visitor, old(self.ev).rest(), self.cfg) { unimplemented!() }
+    #[verifier::external_body]
+    fn deserialize_map(self, visitor: Vis) -> (r: Result<VisVal, Error>) ensures r == vis_map(visitor, old(self.ev).rest(), self.cfg) { unimplemented!() }
+}
+
+/// the documented inference for an UNTAGGED PLAIN scalar that is not null-like: bool, then integer, then float, then string
+spec fn sp_infer_plain(visitor: Vis, text: Seq<char>, tag: SfTag, cfg: Cfg) -> Result<VisVal, Error> {
+    let b = encode_utf8(text);
+    let t = spec_trim(b);
+    let boolean = if cfg.strict_booleans { sp_strict_bool(t) } else { sp_yaml11(t) };
+    if boolean is Some { vis_bool(visitor, boolean->Some_0) }
+    else {
+        let tt = spec_trim(t);
+        let neg = t.len() > 0 && t[0] == 0x2d && !sp_leading_zero_decimal(tt);
+        let si = int_spec(tt, cfg.legacy_octal_numbers);
+        let ui = uint_spec(tt, cfg.legacy_octal_numbers);
+        let s_ok = si is Some && i64::MIN <= si->Some_0 <= i64::MAX;
+        let u_ok = ui is Some && ui->Some_0 <= u64::MAX;
+        if neg && s_ok { vis_int(visitor, -64, si->Some_0) }
+        else if !neg && u_ok { vis_int(visitor, 64, ui->Some_0) }
+        else if !neg && s_ok { vis_int(visitor, -64, si->Some_0) }
+        else { match sp_float(b, tag, cfg.angle_conversions) {
+            Some(v) => if sp_is_finite(v) { vis_f64(visitor, v) }
+                       else if sp_is_nan(v) { vis_str(visitor, ".nan"@) } else if sp_is_neg(v) { vis_str(visitor, "-.inf"@) } else { vis_str(visitor, ".inf"@) },
+            None => vis_str(visitor, text) } }
+    }
+}
+
+/// does a plain text look like a number, a boolean or null?  (no_schema mode asks for quotes then)
+spec fn sp_looks_non_string(b: Seq<u8>) -> bool {
+    sp_float(b, SfTag::None, false) is Some
+    || (int_spec(spec_trim(b), false) is Some && i128::MIN <= int_spec(spec_trim(b), false)->Some_0 <= i128::MAX)
+    || sp_yaml11(spec_trim(b)) is Some
+    || sp_null_text(b)
+}
